@@ -29,7 +29,20 @@ where
     F: Fn(f64) -> f64,
 {
     let multiplier = 10_f64.powf(precision as f64);
-    fun(num * multiplier) / multiplier
+    let mut scaled = num * multiplier;
+    if scaled == 0.0 && num != 0.0 && multiplier != 0.0 {
+        // The product underflowed: keep a non-zero value of the same sign so that
+        // `ceil` / `floor` still move away from zero.
+        scaled = f64::MIN_POSITIVE.copysign(num);
+    }
+    let result = fun(scaled) / multiplier;
+    if result.is_finite() || multiplier <= 1.0 {
+        result
+    } else {
+        // `10^precision` or `num * 10^precision` left the `f64` range: `num` has no
+        // digits beyond that precision, so it is already rounded.
+        num
+    }
 }
 
 #[derive(Debug, Clone)]
